@@ -416,8 +416,14 @@ class CachedFcn(UserFcn):
             return self.lastReturn
         # evaluate first: a call that raises must leave the cache describing the last successful call
         result = super().__call__(*args, **kwds)
-        self.lastArgs = args
-        self.lastKwds = kwds
+
+        # keep a private copy of array arguments: a caller that refills one buffer in place (the _numpy methods do)
+        # would otherwise find its own, changed, array in the cache and get the previous result back
+        def keep(x):
+            return x.copy() if isinstance(x, np.ndarray) else x
+
+        self.lastArgs = tuple(keep(x) for x in args)
+        self.lastKwds = {k: keep(v) for k, v in kwds.items()}
         self.lastReturn = result
         return self.lastReturn
 
